@@ -10,6 +10,7 @@ import (
 	"fmt"
 	"math"
 	"os"
+	"runtime/pprof"
 	"sort"
 	"strings"
 	"sync"
@@ -798,26 +799,30 @@ func exploreSubstituted(w *worker, resp *response, views []view) {
 	}
 }
 
-func substViews(resp *response, all bool) []view {
+// substViews: mode 0 = one view pair (pairs in thorough), 1 = quick singles, 2 = thorough singles.
+func substViews(resp *response, mode int) []view {
 	l := resp.abortedLists(resp.first)[0]
 	var vs []view
 	Rs := []int64{resp.first}
-	if all {
-		Rs = []int64{resp.first, resp.first + 1, resp.last, resp.last + 1}
-		if resp.first > 0 {
-			Rs = append(Rs, resp.first-1)
-		}
+	switch mode {
+	case 1:
+		Rs = []int64{resp.first, resp.first + 1}
+	case 2:
+		Rs = []int64{resp.first, resp.first + 1, resp.last, resp.last + 1, resp.first - 1}
 	}
 	seen := map[int64]bool{}
 	for _, R := range Rs {
-		if seen[R] {
+		if seen[R] || R < 0 {
 			continue
 		}
 		seen[R] = true
 		for _, crcOff := range []bool{false, true} {
 			for _, rc := range []bool{false, true} {
 				for _, keep := range []bool{false, true} {
-					if !all && !(rc && keep) {
+					if mode == 0 && !(rc && keep) {
+						continue
+					}
+					if mode == 1 && rc != keep {
 						continue
 					}
 					vs = append(vs, view{R: R, rc: rc, keep: keep, list: l, disableCRC: crcOff})
@@ -871,6 +876,11 @@ func runJobs(r *ev.Run, name string, jobs []job, deadline time.Time) {
 func main() {
 	if len(os.Args) == 3 && os.Args[1] == "--replay" {
 		os.Exit(replay(os.Args[2]))
+	}
+	if pf := os.Getenv("C06_CPUPROFILE"); pf != "" {
+		f, _ := os.Create(pf)
+		pprof.StartCPUProfile(f)
+		defer pprof.StopCPUProfile()
 	}
 	r := ev.New("C06", "exploration")
 	thorough := ev.Thorough()
@@ -949,7 +959,7 @@ func main() {
 		resp := mkResponse(5, 0, k)
 		jobs = append(jobs, func(w *worker) {
 			t0 := time.Now()
-			exploreSubstituted(w, resp, substViews(resp, true))
+			exploreSubstituted(w, resp, substViews(resp, map[bool]int{false: 1, true: 2}[thorough]))
 			if os.Getenv("C06_DEBUG") != "" {
 				fmt.Fprintf(os.Stderr, "subst %-60s %6.2fs\n", resp.name, time.Since(t0).Seconds())
 			}
@@ -959,7 +969,7 @@ func main() {
 		for _, a := range M0 {
 			for _, b := range M0 {
 				resp := mkResponse(5, 0, a, b)
-				jobs = append(jobs, func(w *worker) { exploreSubstituted(w, resp, substViews(resp, false)) })
+				jobs = append(jobs, func(w *worker) { exploreSubstituted(w, resp, substViews(resp, 0)) })
 			}
 		}
 	}
@@ -1024,7 +1034,9 @@ func main() {
 		r.Violation(k, fmt.Sprintf("%s\n[%d inputs in this class; smallest: %s, %s, requested offset %d, read_committed=%v aborted=%v keep_control=%v disable_crc=%v]\ninput=%s",
 			c.what, c.count, c.art.Response, c.art.Mutation, c.art.Offset, c.art.ReadCommit, c.art.Aborted, c.art.KeepControl, c.art.DisableCRC, c.art.InputHex), c.art)
 	}
-	r.Finish()
+	code := r.Write()
+	pprof.StopCPUProfile()
+	os.Exit(code)
 }
 
 // ------------------------------------------------------------------- replay
